@@ -1439,6 +1439,7 @@ theorem synced_step_aux {s : State} (h : Synced s) (op : Op) (hq : Quiet op) : S
   | lorder _ => exact absurd hq (by simp [Quiet])
   | ldefault _ => exact absurd hq (by simp [Quiet])
   | save _ _ => exact absurd hq (by simp [Quiet])
+  | saveas _ _ => exact absurd hq (by simp [Quiet])
   | xlinfo _ _ => exact absurd hq (by simp [Quiet])
   | xladd _ _ _ => exact absurd hq (by simp [Quiet])
   | xldel _ => exact absurd hq (by simp [Quiet])
